@@ -659,6 +659,16 @@ def output_creators(ctx):
     return reach
 
 
+def is_stderr_diag(fv, x):
+    """eprint!/eprintln!, or a write whose receiver is the process's stderr handle"""
+    if x.get("k") == "call" and cname(x) == "std::io::_eprint":
+        return True
+    if x.get("k") == "mcall" and cname(x).split("::")[-1] in ("write_all", "write_fmt", "write"):
+        recv = fv.term(x["recv"]) if x.get("recv") else None
+        return recv is not None and contains(recv, lambda s_: s_[0] == "call" and s_[1] == "std::io::stderr")
+    return False
+
+
 def refusal_rule(ctx, fv):
     creators = output_creators(ctx)
     rets = [n for n in fv.nodes if n.get("k") == "ret" or n.get("was_ret")]   # was_ret: early exit of an expanded helper
@@ -701,7 +711,7 @@ def refusal_rule(ctx, fv):
                 if kind is not None and kind == {"Min:window_not_longer_than_m": "window", "Min:m_too_long": "m_too_long"}.get(name):
                     return pol == want_pol
                 return False
-            diags = [x for x in fv.nodes if x.get("k") == "call" and cname(x) in ("std::io::_eprint",)
+            diags = [x for x in fv.nodes if is_stderr_diag(fv, x)
                      and any(holds(g, pol, True) for g, pol in fv.guards(x))]
             arm_name = name.split(":")[0]
             in_arm = []
@@ -725,7 +735,7 @@ def refusal_rule(ctx, fv):
             continue
         # diagnostic before the return, in the same block
         blk = fv.enclosing(r, ("block",))
-        diag = [x for x in walk(blk) if x.get("k") == "call" and cname(x) in ("std::io::_eprint",)]
+        diag = [x for x in walk(blk) if is_stderr_diag(fv, x)]
         ctx.check("C15.Z", name + ":diagnostic", len(diag) >= 1, "prints a diagnostic on stderr",
                   "the refusal prints no diagnostic on stderr (stdout carries results when the output is `-`, and scripts "
                   "read the reason from stderr)", line_of(r))
@@ -815,6 +825,8 @@ def cli_arm_dep(ctx, prop, arms, presets=False):
         if presets:
             preset_rule(dep(ctx, prop, "C15"), fcli, arms=arms)
     setters_rule(dep(ctx, prop, "C15"), arms)
+    if prop not in ("C03", "C16"):      # (those two bind the ranges themselves)
+        ranges_rule(dep(ctx, prop, "C15"), structs=tuple(ARGS_OF[a] for a in arms))     # every documented value is accepted
 
 
 
